@@ -166,7 +166,30 @@ def check_functions(model: Model, report: Report) -> None:
         report.touched(site)
 
 
-CLASSES5 = [".", "\\", "[", "]", "x"]
+CLASSES5 = [".", "\\", "[", "]", "$", "^", "x"]
+SPECIALS = (".", "\\", "[", "]", "$", "^")
+ANCHOR_LITERAL = {"$": ("\\$", "[$]"), "^": ("\\^",)}  # spellings of the literal character for the engine
+
+
+def _flat_text(v: Any, ctx: Any) -> Optional[str]:
+    """The concrete text of a piece built from constants and characters the path has fixed; None otherwise."""
+    if isinstance(v, Const) and isinstance(v.value, str):
+        return v.value
+    if isinstance(v, SymChar):
+        return ctx.char_fixed.get(v.id)
+    if isinstance(v, Term) and v.op in ("concat", "fstr", "join"):
+        parts = v.args[1] if v.op == "join" and len(v.args) > 1 and isinstance(v.args[1], tuple) else v.args
+        out = []
+        for a in parts:
+            if isinstance(a, (tuple, list)):
+                sub = [_flat_text(x, ctx) for x in a]
+            else:
+                sub = [_flat_text(a, ctx)]
+            if any(x is None for x in sub):
+                return None
+            out += sub
+        return "".join(out)
+    return None
 
 
 def oracle_map(classes: List[str], DOT: str) -> List[Any]:
@@ -180,6 +203,10 @@ def oracle_map(classes: List[str], DOT: str) -> List[Any]:
             continue
         if c == ".":
             out.append(("dot",) if not in_class else ("copy", i))
+        elif c in ("$", "^"):
+            # ordinary characters in I-Regexp (RFC 9485 NormalChar), assertions for the engine: outside a class they
+            # must reach the engine as literals; inside a class both dialects agree ('^' first negates)
+            out.append(("lit", i) if not in_class else ("copy", i))
         elif c == "\\":
             escaped = True
             out.append(("copy", i))
@@ -211,7 +238,7 @@ def check_map_re(model: Model, report: Report) -> None:
                 cpv = it.ctx.new_int(f"cp{k}", 0, 0x10FFFF)
                 ch = SymChar(it.ctx.new_id(), f"c{k}", cpv)
                 if cls_ == "x":
-                    it.ctx.char_excl[ch.id] = {".", "\\", "[", "]"}
+                    it.ctx.char_excl[ch.id] = set(SPECIALS)
                 else:
                     it.ctx.char_fixed[ch.id] = cls_
                 chars.append(ch)
@@ -234,7 +261,7 @@ def check_map_re(model: Model, report: Report) -> None:
             classes = []
             for ch in chars:
                 fx = run.ctx.char_fixed.get(ch.id)
-                classes.append(fx if fx in (".", "\\", "[", "]") else "x")
+                classes.append(fx if fx in SPECIALS else "x")
             if isinstance(r, Term) and r.op == "join":
                 items = list(r.args[1]) if isinstance(r.args[1], tuple) else None
             elif isinstance(r, Const) and isinstance(r.value, str):
@@ -249,9 +276,13 @@ def check_map_re(model: Model, report: Report) -> None:
                     if L is None:
                         items = None
                     else:
-                        exp = "".join(L if w[0] == "dot" else classes[w[1]] for w in want0)
+                        exps = [""]
+                        for w in want0:
+                            alts = [L] if w[0] == "dot" else (list(ANCHOR_LITERAL[classes[w[1]]]) if w[0] == "lit" else [classes[w[1]]])
+                            exps = [e + a for e in exps for a in alts]
+                        exp = exps[0]
                         n_cells += 1
-                        if r.value != exp:
+                        if r.value not in exps:
                             bad[f"text:{''.join(classes)}"] = f"on class sequence {''.join(classes)!r} map_re gives {r.value!r}, expected {exp!r}"
                         continue
             else:
@@ -270,12 +301,22 @@ def check_map_re(model: Model, report: Report) -> None:
                     same = got is chars[w[1]] or (isinstance(got, Const) and got.value == run.ctx.char_fixed.get(chars[w[1]].id))
                     if not same:
                         bad[f"copy:{cell}:{k}"] = f"on class sequence {cell!r} character {k} ({classes[k]!r}) is rewritten to {describe(got)!r}; only an unescaped '.' outside a character class may be rewritten"
+                elif w[0] == "lit":
+                    c_ = classes[w[1]]
+                    flat = _flat_text(got, run.ctx)
+                    if flat not in ANCHOR_LITERAL[c_]:
+                        bad.setdefault(f"anchor:{c_}", "")
+                        bad[f"anchor:{c_}"] = f"on class sequence {cell!r} the unescaped {c_!r} outside a character class reaches the engine as {describe(got)!r}: I-Regexp has no assertions, {c_!r} is an ordinary character (RFC 9485 NormalChar), but the engine reads it as an anchor, so match(@, 'a$') accepts 'a' and refuses 'a$'"
                 else:
                     if not isinstance(got, Const) or got.value == ".":
                         bad[f"dot:{cell}:{k}"] = f"on class sequence {cell!r} the unescaped '.' outside a class is not rewritten (it would match CR or not match LF-free semantics of I-Regexp)"
                     else:
                         dot_literals.add(got.value)
         for k, msg in sorted(bad.items())[:12]:
+            if k == "shape":
+                # map_re is not a character-by-character transducer this rule can read: no verdict
+                report.undecided("R11.5", site, f"map_re:{k}: {msg}")
+                continue
             report.fail("R11.5", site, f"map_re:{k}", msg, file=fn.file, line=fn.line)
         if not bad:
             report.ok("R11.5", site, f"map_re transition table on all class sequences of length {length}", detail={"paths": len(runs)})
